@@ -7,6 +7,13 @@ ROOT = Path(__file__).resolve().parent.parent
 COMMON_NOTE = ("Trusted: Coq 8.16.1 kernel (no axioms: every property theorem is Closed under the global context, re-checked on every run), "
                "ExtrOcamlBasic extraction + OCaml driver, the correspondence harness and its generators; pure-Python build only. ")
 
+CONN_NOTE = (COMMON_NOTE + "Model/Conn.v is a hand-written labelled transition system of connection.py (one label = one event-loop callback or "
+             "synchronous user call; the scheduler is not modelled, so theorems cover every interleaving, a superset of asyncio's FIFO order); it is tied to the "
+             "code on every run by trace validation: every callback the real APIConnection runs under the virtual-time loop is labelled and replayed on the "
+             "extracted model, and projections (state, flags, timers, handler table, waiters, futures) and observations (writes, deliveries, stop calls, task "
+             "outcomes, raised exceptions) must agree step by step. The frame helper is abstracted to 'delivers a list of frames per data event' (C01/C03); "
+             "payload decoding, the transport and third-party awaits are inputs of the model. ")
+
 CLAIMED = {
     "C01": dict(
         text="Coq theorem C01_reassembly (all frame lists x all chunkings, unbounded) about an executable Gallina mirror of plain_text.py/base.py; "
@@ -23,6 +30,34 @@ CLAIMED = {
         note=COMMON_NOTE + "The AEAD is a parameter (section hypothesis: correctness and tag length), real ChaCha20-Poly1305 and protobuf serialisation are trusted. Known finding F9 (payload > 65515 bytes) is listed in known_findings.json.",
         tech="machine-checked proof in Coq (round-trip against an independent spec decoder, induction over write histories) + model/implementation correspondence",
         ref="DESIGN.md §5 C02"),
+    "C05": dict(
+        text="Coq theorems C05_state_forward (for every reachable state and every label: the visible state moves only INIT->SOCK->HS->CONNECTED or to CLOSED, never leaves CLOSED, "
+             "is_connected/handshake_complete are functions of the state), C05_runs_monotone (all runs), C05_start_guard/finish_guard/start_accepted_once (single use) about Model/Conn.v, "
+             "proved by an inductive invariant preserved by all 27 label kinds (Proofs/ConnStep*.v); model tied to connection.py by trace validation on every run; the transition relation "
+             "is also evaluated on the implementation's state sampled after every event-loop callback.",
+        note=CONN_NOTE, tech="machine-checked proof in Coq (inductive invariant over all label sequences = all interleavings) + trace validation against the real APIConnection",
+        ref="DESIGN.md §5 C05"),
+    "C07": dict(
+        text="Coq theorems C07_stop_exactly_once (in every reachable state the history of on_stop calls has at most one entry, exactly one iff the connection was ever CONNECTED and is CLOSED) and "
+             "C07_no_second_stop (from a closed state no transition calls it again) about Model/Conn.v; the reason argument is the expected-disconnect flag at the close (examples for peer request, "
+             "reset, force with failing write). Tied by trace validation; the count/timing/reason predicate is evaluated on the implementation's traces with an oracle derived from the labels.",
+        note=CONN_NOTE + "The theorem about the reason argument is stated through the model's expected_disconnect flag (set by exactly the three graceful initiations in the model); the label-based oracle on the implementation is a test.",
+        tech="machine-checked proof in Coq (inductive invariant with ghost history of stop calls) + trace validation against the real APIConnection",
+        ref="DESIGN.md §5 C07"),
+    "C08": dict(
+        text="Coq theorems C08_closed_released (every reachable closed state: keepalive/pong timers cancelled, waiter set empty, socket released, helper released or about to be, flags down) and "
+             "C08_closed_is_silent (from a closed state no label - data, timers, wake-ups, user calls - produces a write of application messages, a subscriber delivery or a stop call, and the state stays closed) "
+             "about Model/Conn.v. Tied by trace validation; on the implementation the same clauses are evaluated after every callback, plus an audit of the loop's timer heap and the connection's tasks at quiescent points after the close.",
+        note=CONN_NOTE + "Partial in two named respects: OS-level release of the socket is observed on a fake socket only; 'no request/handshake timer stays armed and no task stays blocked' at quiescent points is checked on the implementation (timer-heap/task audit) and by trace validation, not yet proved as a theorem about the model.",
+        tech="machine-checked proof in Coq (inductive invariant + closed-state silence lemma over all labels) + trace validation and resource audit against the real APIConnection",
+        ref="DESIGN.md §5 C08"),
+    "C12": dict(
+        text="Coq theorems C12_known_type_dispatched (deliveries of one packet = the subscribers in the snapshot of the handler table at dispatch start, each once, whatever re-entrant scripts do), "
+             "C12_dispatch_prefix_on_error, C12_unknown_type_ignored + C12_registered_iff (every type number outside 1..n, unbounded, has no effect), C12_bad_payload_closes (protocol error, first cause kept, nothing delivered), "
+             "C12_ping/time/disconnect answered about process_packet of Model/Conn.v with the registry regenerated from core.py. Tied by trace validation (re-entrant subscriber scripts, ids 0/n/n+1/65535/2^40, bad payloads with and without subscribers).",
+        note=CONN_NOTE + "Payload validity is an input flag of the model (protobuf parsing is trusted).",
+        tech="machine-checked proof in Coq (induction over the handler snapshot) + trace validation against the real APIConnection",
+        ref="DESIGN.md §5 C12"),
     "C13": dict(
         text="Coq theorems C13_registry_is_proto / ids_unique_contiguous / descriptors_agree / direction: generic checker-soundness lemmas (proved for all tables) "
              "applied by vm_compute to tables regenerated from core.py, api.proto, the compiled descriptors and client.py/connection.py on every run; complete over the finite tables.",
